@@ -151,3 +151,35 @@ func zzH_C18_gater_score_wrap_probe(t *zzT) {
 		t.Reach("wrap_already_banned")
 	}
 }
+
+// C18.a (IP identity, incl. IPv6): the blacklist and the penalty table are keyed by the canonical
+// text of the IP, so different spellings of one address are one identity: an expanded / upper-case
+// IPv6 blacklist entry refuses the compressed form; an IPv4-mapped IPv6 address (::ffff:a.b.c.d) and
+// the plain IPv4 address share one score and one ban.
+//
+//zz:opt loop=4000
+//zz:stub time.Now zzStubNow
+func zzH_C18_gater_ip_forms(t *zzT) {
+	cg := zzNewGater()
+	if t.Symbolic() {
+		zzClockSec = 1_700_000_000
+	}
+	_, err := cg.optionWithBlacklist([]string{"2001:0DB8:0000:0000:0000:0000:0006:0005"})
+	t.Assert(err == nil, "expanded upper-case IPv6 blacklist entry accepted")
+	b1, f1 := zzAddrs(1)
+	t.Assert(!zzGatesAgree(t, cg, b1) && !zzGatesAgree(t, cg, f1), "blacklisted IPv6 refused whatever its spelling")
+	_, err = cg.optionWithBlacklist([]string{"10.9.8"})
+	t.Assert(err != nil, "invalid blacklist entry rejected")
+
+	v4, _ := zzAddrs(0)
+	mapped := zzMustAddr("/ip6/::ffff:" + zzIP0 + "/tcp/7667")
+	a, b := t.Int("a"), t.Int("b")
+	t.Assume(a >= 0 && a <= MaxPenaltyScore && b >= 0 && b <= MaxPenaltyScore)
+	r1, err1 := cg.addPenalty(v4, a)
+	r2, err2 := cg.addPenalty(mapped, b)
+	t.Assert(err1 == nil && err2 == nil && r1 == a && r2 == a+b, "IPv4 and IPv4-mapped IPv6 spellings accumulate into one score")
+	want := a+b < MaxPenaltyScore
+	t.Assert(zzGatesAgree(t, cg, v4) == want && zzGatesAgree(t, cg, mapped) == want, "both spellings get the same verdict")
+	t.Assert(len(cg.peerScore) == 1, "one table entry for the one IP")
+	t.Reach("end")
+}
